@@ -15,6 +15,9 @@ HARNESSES = [
     dict(name="checksum", file="checksum.c", label="proved", unwind=513,
          flags=["--unsigned-overflow-check"], timeout=900,
          cases=[dict(id="hdr512", tier="quick")]),
+    dict(name="decode_header", file="decode_header.c", label="proved", defines=CT,
+         unwind=513, malloc_fail=True, timeout=1200, weight=6,
+         cases=[dict(id="hdr512", tier="quick")]),
     dict(name="hardlink", file="hardlink.c", label="bounded(link graph nodes <= 4)",
          timeout=900, weight=8,
          cases=[dict(id="n2", defines={"NODES": 2}, unwind=6, tier="quick"),
